@@ -345,8 +345,44 @@ def rule_recurrent_loop(ctx: Ctx, out: Collector) -> None:
             else:
                 out.bad('RC-2', cons, lp.where(), 'the data of next_iteration() is not handed over before each run of the subgraph: the '
                                                   'start node is re-executed without (or with stale) additional_data')
+            # ---- RC-8 the hand-over entry does not outlive the subgraph
+            cons8 = base + '::the hand-over entry is removed when the subgraph has finished'
+            if hand is not None:
+                slot8 = sym.term(ctx.p, hand.info['target'].value, hand.inst)
+                key8 = sym.term(ctx.p, hand.info['target'].slice, hand.inst)
+                removals = set()
+                for ev in g.evs:
+                    if ev.inst is not lp.inst and not _below(ev.inst, lp.inst):
+                        continue
+                    if ev.kind == 'call' and isinstance(ev.node, ast.Call) and isinstance(ev.node.func, ast.Attribute) \
+                            and ev.node.func.attr in ('pop', 'clear', '__delitem__') \
+                            and sym.term(ctx.p, ev.node.func.value, ev.inst) == slot8:
+                        if ev.node.func.attr == 'clear' or (ev.node.args and sym.term(ctx.p, ev.node.args[0], ev.inst) == key8):
+                            removals.add(ev.id)
+                    if ev.kind == 'del' and isinstance(ev.info.get('target'), ast.Subscript) \
+                            and sym.term(ctx.p, ev.info['target'].value, ev.inst) == slot8 \
+                            and sym.term(ctx.p, ev.info['target'].slice, ev.inst) == key8:
+                        removals.add(ev.id)
+                ends8 = {g.exit} if lp.inst.parent is None else {ev.id for ev in g.events('ret') if ev.info.get('callee') is lp.inst}
+                # normal completions of the driver: the loop was left by break (a final result) or by exhaustion
+                after = [m for m, lab in g.succ[lp.id] if lab == 'F']
+                brk = [ev.id for ev in g.events('break') if ev.inst is lp.inst and ev.id in region]
+                starts8 = after + [m for b_ in brk for m, lab in g.succ.get(b_, ()) if lab in NORMAL_LABELS]
+                leak = None
+                for st8 in starts8:
+                    pth = find_path(g, st8, ends8, avoid=removals, labels=NORMAL_LABELS)
+                    if pth is not None and st8 not in removals:
+                        leak = pth
+                        break
+                if leak is None and starts8:
+                    out.ok('RC-8', cons8, hand.where(), f'every normal completion removes {sym.show(slot8)}[{sym.show(key8)}]')
+                else:
+                    out.bad('RC-8', cons8, hand.where(),
+                            f'{sym.show(slot8)}[{sym.show(key8)}] is written on every re-iteration and still set when the subgraph has '
+                            f'finished: when an outer subgraph (or a later scope) executes the start node again it receives the '
+                            f'additional_data of the superseded execution', path_text(g, leak or []))
             # ---- RC-4 exhaustion
-            cons = base + '::exhaustion: default only for a Recurrent marker and use_default, else the documented error'
+
             fsucc = [m for m, lab in g.succ[lp.id] if lab == 'F']
             ends = {g.exit} if lp.inst.parent is None else {ev.id for ev in g.events('ret') if ev.info.get('callee') is lp.inst}
             ok_events = set()
@@ -444,6 +480,15 @@ def rule_recurrent_loop(ctx: Ctx, out: Collector) -> None:
                                                   f'none at all', path_text(g, path))
     if n == 0:
         raise AnalysisError('no bounded re-execution loop found (RC-1 anchor vanished)')
+
+
+def _below(inst, anc) -> bool:
+    cur = inst
+    while cur is not None:
+        if cur is anc:
+            return True
+        cur = cur.parent
+    return False
 
 
 def _may_default(ctx: Ctx, unit: FuncUnit) -> bool:
